@@ -6,12 +6,35 @@ package s3db
 
 import "context"
 
+// VerifKeyCol: position of the key column in tables made by VerifNewTable.
+var VerifKeyCol = 0
+
 func VerifNewTable(ctx context.Context, name string, opts S3Options) (*VirtualTable, error) {
 	table := &VirtualTable{Name: name, S3Options: opts}
-	table.KeyCol = 0
-	table.ColumnNameByIndex = map[int]string{0: "a", 1: "b", 2: "c"}
-	table.ColumnIndexByName = map[string]int{"a": 0, "b": 1, "c": 2}
-	table.SchemaString = "CREATE TABLE x(a PRIMARY KEY, b, c) WITHOUT ROWID"
+	// the key column "a" is declared at position VerifKeyCol (0 unless a
+	// harness says otherwise); "b" and "c" take the other two positions in order
+	table.KeyCol = VerifKeyCol
+	names := []string{"b", "c"}
+	table.ColumnNameByIndex = map[int]string{}
+	table.ColumnIndexByName = map[string]int{}
+	table.SchemaString = "CREATE TABLE x("
+	for i, n := 0, 0; i < 3; i++ {
+		name := "a"
+		if i != VerifKeyCol {
+			name = names[n]
+			n++
+		}
+		table.ColumnNameByIndex[i] = name
+		table.ColumnIndexByName[name] = i
+		if i > 0 {
+			table.SchemaString += ", "
+		}
+		table.SchemaString += name
+		if i == VerifKeyCol {
+			table.SchemaString += " PRIMARY KEY"
+		}
+	}
+	table.SchemaString += ") WITHOUT ROWID"
 	var err error
 	table.Tree, err = OpenKV(ctx, table.S3Options, "s3db-rows")
 	if err != nil {
